@@ -578,6 +578,8 @@ class Spec(PropSpec):
             net = rng.sample(net, 150)
         bp = FC.burst_points()
         net += rng.sample(bp, 120) if quick else bp
+        rcp = FC.repeated_crash_points()
+        net += rng.sample(rcp, 100) if quick else rcp
         mcp = FC.multicast_points()
         net += rng.sample(mcp, 110) if quick else mcp
         net += [FC.gen_random(rng) for _ in range(60 if quick else 800)]
